@@ -113,6 +113,14 @@ macro_rules! rgb_matrix_for {
                 if !(d <= tol) {
                     c.violation(&format!("C14/matrix3/matrix_from_rgb-vs-conversion/{}/{}", $name, tn), d, || case("Xyz::matrix_from_rgb().convert(rgb) vs Xyz::from_color_unclamped(rgb)", p, vec![x.x as f64, x.y as f64, x.z as f64], vec![want.x as f64, want.y as f64, want.z as f64]));
                 }
+                if p == [1.0, 1.0, 1.0] {
+                    // white of the space -> its white point, whether the matrix is hard-coded or derived at run time
+                    let w: Xyz<palette::white_point::Any, T> = <$W as palette::white_point::WhitePoint<T>>::get_xyz();
+                    let d = ((want.x - w.x).abs() as f64).max((want.y - w.y).abs() as f64).max((want.z - w.z).abs() as f64);
+                    if !(d <= tol) {
+                        c.violation(&format!("C14/matrix3/white-of-space/{}/{}", $name, tn), d, || case("Xyz::from_color_unclamped(white) vs the white point", p, vec![want.x as f64, want.y as f64, want.z as f64], vec![w.x as f64, w.y as f64, w.z as f64]));
+                    }
+                }
                 let back: Rgb<Linear<$S>, T> = mi.convert(x);
                 let back2: Rgb<Linear<$S>, T> = m.invert().convert(x);
                 let back3: Rgb<Linear<$S>, T> = m.then(mi).convert(rgb);
@@ -142,6 +150,13 @@ rgb_matrix_for!(mx_2020_f64, f64, encoding::Rec2020, wp::D65, "Rec2020", 2e-6);
 rgb_matrix_for!(mx_p3_f64, f64, encoding::DisplayP3, wp::D65, "DisplayP3", 2e-6);
 rgb_matrix_for!(mx_dci_f64, f64, encoding::DciP3, encoding::DciP3, "DciP3", 2e-6);
 rgb_matrix_for!(mx_pro_f64, f64, encoding::ProPhotoRgb, wp::D50, "ProPhotoRgb", 2e-6);
+// tuple spaces: no hard-coded matrix, both directions derived at run time
+rgb_matrix_for!(mx_t1_f64, f64, (encoding::Srgb, wp::D50), wp::D50, "(Srgb,D50)", 2e-6);
+rgb_matrix_for!(mx_t2_f64, f64, (encoding::Rec2020, wp::D50), wp::D50, "(Rec2020,D50)", 2e-6);
+rgb_matrix_for!(mx_t3_f64, f64, (encoding::AdobeRgb, wp::E), wp::E, "(AdobeRgb,E)", 2e-6);
+rgb_matrix_for!(mx_t4_f64, f64, (encoding::ProPhotoRgb, wp::D65), wp::D65, "(ProPhotoRgb,D65)", 2e-6);
+rgb_matrix_for!(mx_t1_f32, f32, (encoding::Srgb, wp::D50), wp::D50, "(Srgb,D50)", 2e-5);
+rgb_matrix_for!(mx_t3_f32, f32, (encoding::AdobeRgb, wp::E), wp::E, "(AdobeRgb,E)", 2e-5);
 rgb_matrix_for!(mx_srgb_f32, f32, encoding::Srgb, wp::D65, "Srgb", 2e-5);
 rgb_matrix_for!(mx_2020_f32, f32, encoding::Rec2020, wp::D65, "Rec2020", 2e-5);
 rgb_matrix_for!(mx_pro_f32, f32, encoding::ProPhotoRgb, wp::D50, "ProPhotoRgb", 2e-5);
@@ -153,10 +168,10 @@ pub fn run(ctx: &Ctx, total: &mut Collector) {
     }
     let mut c = Collector::new();
     let mut n = 0u64;
-    for f in [dyn_bradford_f64, dyn_vonkries_f64, dyn_unit_f64, dyn_bradford_f32, dyn_vonkries_f32, dyn_unit_f32, mx_srgb_f64, mx_adobe_f64, mx_2020_f64, mx_p3_f64, mx_dci_f64, mx_pro_f64, mx_srgb_f32, mx_2020_f32, mx_pro_f32] {
+    for f in [dyn_bradford_f64, dyn_vonkries_f64, dyn_unit_f64, dyn_bradford_f32, dyn_vonkries_f32, dyn_unit_f32, mx_srgb_f64, mx_adobe_f64, mx_2020_f64, mx_p3_f64, mx_dci_f64, mx_pro_f64, mx_srgb_f32, mx_2020_f32, mx_pro_f32, mx_t1_f64, mx_t2_f64, mx_t3_f64, mx_t4_f64, mx_t1_f32, mx_t3_f32] {
         f(&mut c, &mut n);
     }
     c.add(sub, n, 6 * n, 6 * n, n);
-    c.exhaustive(sub, true, "all 18 x 18 ordered pairs of run-time white points (6 chromaticities x luminance 1, 0.8, 2.5) x {Bradford, VonKries, XYZ scaling} x 6 XYZ points, f32/f64: white -> white, identity for equal chromaticity, reverse matrix / invert() / then(); Matrix3 from RGB spaces (6 spaces): matrix_from_rgb vs conversion, matrix_from_xyz, invert, then, identity");
+    c.exhaustive(sub, true, "all 18 x 18 ordered pairs of run-time white points (6 chromaticities x luminance 1, 0.8, 2.5) x {Bradford, VonKries, XYZ scaling} x 6 XYZ points, f32/f64: white -> white, identity for equal chromaticity, reverse matrix / invert() / then(); Matrix3 from RGB spaces (6 named spaces and 4 tuple spaces (primaries, white point) whose matrices are derived at run time): white -> white point, matrix_from_rgb vs conversion, matrix_from_xyz, invert, then, identity");
     total.merge(c);
 }
